@@ -314,3 +314,6 @@ def check(ctx):
                        "the driver's concretisation table (abstract command -> text) and reply classification are correct",
                        "websocket frames are received in the order the server wrote them",
                        "reply time-outs are 60 s per command"]
+
+# round 6 (DESIGN.md 11.10)
+META["technique"] += ' Argument shapes include file-metadata shapes for `fs` (times before 1970 / beyond 2500, symlinks, fifo, non-UTF-8 names) and archive opens whose extraction stays pending for several 100 ms, with every stream verb fired right behind the open.'
